@@ -1,5 +1,7 @@
 import GmqttVerif.Model.RedisStores
+import GmqttVerif.Model.RedisHistory
 import GmqttVerif.Proofs.ElemCodec
+import GmqttVerif.Proofs.RedisCrash
 /-
   C09 — Durable (redis) sessions survive a broker crash at any point.
 
@@ -37,5 +39,133 @@ theorem subscription_roundtrip (s : Subscription) (h : s.InLimits) : decodeSubsc
 theorem f30_length_prefix_wraps (p rest : Bytes) (h : p.length = 65536) :
     readBin (writeBin p ++ rest) = .ok ([], p ++ rest) := by
   simp [writeBin, writeU16, h, readBin]
+
+/-- the five fields `Store.Set` writes are read back as the same session, whatever the hash held before -/
+theorem session_roundtrip (old : List (Bytes × Bytes)) (s : Session) (hw : ∀ m, s.will = some m → m.InLimits)
+    (h1 : s.willDelay < 4294967296) (h2 : s.connectedAt < 4294967296) (h3 : s.expiry < 4294967296) :
+    parseSession (sessFields.map (hfind (upsertMany old (sessHash s)))) = .ok (some s) :=
+  parsedSess_sessHash old s hw h1 h2 h3
+
+/-! ## 2. the raw dataset refines the decoded store, command by command
+
+`DCmd` (Model/RedisDecoded.lean) are the write commands of the persistence layer with decoded payloads, `DCmd.enc` the redis
+command sent, `dfold` their meaning on the decoded store (per client: session hash, subscriptions, queue elements, unack
+ids). After ANY sequence of well-formed commands a restart succeeds and recovers exactly the client views of the decoded
+store: every client whose `session:<id>` hash holds a session, with exactly its subscriptions, its queue elements in
+order, and its unack ids — nothing else, nothing missing. This holds for arbitrary command sequences, in particular for
+every prefix of what a history issues. -/
+
+theorem recover_refines (cs : List DCmd) (hc : ∀ d ∈ cs, d.Good) :
+    ∃ d, recover (applyAll [] (cs.map DCmd.enc)) = .ok d ∧ ∀ c, viewOf d c = clientView (dfold DStore.empty cs) c := by
+  obtain ⟨hr, hg⟩ := rel_fold cs [] DStore.empty rel_empty good_empty hc
+  obtain ⟨d, hd, h1, h2⟩ := recover_of_rel _ _ hr hg
+  exact ⟨d, hd, viewOf_eq d _ hg h1 h2⟩
+
+/-! ## 3. crash consistency
+
+`HOp` (Model/RedisHistory.lean) are the steps of client histories — connect (new / clean start / resume), subscribe,
+unsubscribe, a publish routed to a subscriber's queue (online or offline), delivery, PUBACK/PUBCOMP, PUBREC, an incoming
+QoS 2 publish, PUBREL, a new expiry on DISCONNECT, session termination — and `hcmds` the write commands the broker
+issues for them, in order. `ValidOp` is what the callers of the stores guarantee (values within the limits of the format,
+non-zero packet ids, …). The acknowledgement of a step (CONNACK, SUBACK, UNSUBACK, the publisher's PUBACK/PUBREC, …) is
+written after the step's last command.
+
+**For every valid history and EVERY prefix `k` of its command sequence** the restart on the dataset after `k` commands
+succeeds, and
+
+* (a) if `k` is the end of a step: every client is recovered exactly as the decoded state after that step says
+  (`clientView (hrun … h1).g c`): the sessions whose registration completed and that were not removed, with exactly the
+  subscriptions subscribed and not unsubscribed, the queue holding in order every element enqueued and not yet taken
+  out (in-flight ones with their packet ids), and the unack ids set and not removed;
+* (b) if `k` lies strictly inside a step: every OTHER client is recovered exactly as before that step, and the step's own
+  client satisfies `Interior`: no session at all while a session is being created or removed; the same session with
+  the same subscriptions / unack ids and a queue that differs in expiry times only while a resume replays; the same
+  session with every QoS>0 message still queued while a `Read` pipeline runs. Steps with a single command have no
+  interior. -/
+theorem crash_consistent (ie : Nat) (h : List HOp) (hv : ValidHist ie {} h) (k : Nat) (hk : k ≤ (hcmds ie {} h).length) :
+    ∃ d, recover (applyAll [] (((hcmds ie {} h).take k).map DCmd.enc)) = .ok d ∧
+      ((∃ h1 h2, h = h1 ++ h2 ∧ k = (hcmds ie {} h1).length ∧ ∀ c, viewOf d c = clientView (hrun ie {} h1).g c) ∨
+       (∃ h1 op h2 j, h = h1 ++ op :: h2 ∧ 0 < j ∧ j < (op.cmds ie (hrun ie {} h1)).length ∧
+          k = (hcmds ie {} h1).length + j ∧
+          (∀ c, c ≠ op.cid → viewOf d c = clientView (hrun ie {} h1).g c) ∧
+          Interior (hrun ie {} h1) op (viewOf d op.cid))) := by
+  obtain ⟨hgood, hsplit⟩ := hist_good ie h {} hinv_empty hv
+  obtain ⟨d, hd, hview⟩ := recover_refines ((hcmds ie {} h).take k) (fun x hx => hgood x (List.mem_of_mem_take hx))
+  refine ⟨d, hd, ?_⟩
+  rcases prefix_split ie {} h k hk with ⟨h1, h2, he, ht, hl⟩ | ⟨h1, op, h2, j, he, hj0, hj, hkj, ht⟩
+  · left
+    refine ⟨h1, h2, he, hl, ?_⟩
+    intro c
+    have hg : dfold DStore.empty (hcmds ie {} h1) = (hrun ie {} h1).g := (hrun_g ie {} h1).symm
+    rw [hview c, ht, hg]
+  · right
+    obtain ⟨hi1, hv1⟩ := hsplit h1 (op :: h2) he
+    refine ⟨h1, op, h2, j, he, hj0, hj, hkj, ?_, ?_⟩
+    · intro c hc
+      rw [hview c, ht, dfold_append]
+      have hg : dfold DStore.empty (hcmds ie {} h1) = (hrun ie {} h1).g := (hrun_g ie {} h1).symm
+      rw [hg]
+      exact clientView_congr _ _ c (take_cmds_other ie _ op j c hc)
+    · rw [hview op.cid, ht, dfold_append]
+      have hg : dfold DStore.empty (hcmds ie {} h1) = (hrun ie {} h1).g := (hrun_g ie {} h1).symm
+      rw [hg]
+      exact interior ie _ op j hi1 hv1.1 hj0 hj
+
+/-! ### what the steps mean (the decoded state `clientView (hrun …).g` that (a) refers to) -/
+
+/-- SUBSCRIBE adds / replaces exactly this subscription -/
+theorem subscribe_meaning (ie : Nat) (st : HSt) (c : Bytes) (s : Subscription) :
+    ((hstep ie st (.subscribe c s)).g c).subs = upsert (st.g c).subs (fullTopicName s) s ∧
+    ((hstep ie st (.subscribe c s)).g c).queue = (st.g c).queue ∧ ((hstep ie st (.subscribe c s)).g c).sess = (st.g c).sess := by
+  simp [hstep, HOp.cmds, HOp.run, dfold, dexec, DCmd.cid, DClient.step]
+
+/-- UNSUBSCRIBE removes exactly this topic filter -/
+theorem unsubscribe_meaning (ie : Nat) (st : HSt) (c : Bytes) (t : Bytes) :
+    ((hstep ie st (.unsubscribe c t)).g c).subs = eraseField (st.g c).subs t := by
+  simp [hstep, HOp.cmds, HOp.run, dfold, dexec, DCmd.cid, DClient.step, eraseFields]
+
+/-- a routed PUBLISH is appended to the subscriber's queue -/
+theorem enqueue_meaning (ie : Nat) (st : HSt) (c : Bytes) (e : Elem) :
+    ((hstep ie st (.enqueue c e)).g c).queue = (st.g c).queue ++ [e] := by
+  simp [hstep, HOp.cmds, HOp.run, dfold, dexec, DCmd.cid, DClient.step]
+
+/-- PUBACK / PUBCOMP removes the in-flight entry carrying that packet id, and only it -/
+theorem ack_meaning (ie : Nat) (st : HSt) (c : Bytes) (pid : Nat) (e : Elem)
+    (h : findById pid ((st.g c).queue.take (st.cur c)) = some e) :
+    ((hstep ie st (.ack c pid)).g c).queue = (st.g c).queue.erase e ∧ e.id = pid := by
+  refine ⟨?_, (findById_mem pid _ e h).2⟩
+  simp [hstep, HOp.cmds, HOp.run, h, dfold, dexec, DCmd.cid, DClient.step]
+
+/-- an incoming QoS 2 PUBLISH records its packet id, PUBREL forgets it -/
+theorem qos2_meaning (ie : Nat) (st : HSt) (c : Bytes) (pid : Nat) :
+    pid ∈ ((hstep ie st (.recvQos2 c pid)).g c).unack ∧
+    ((hstep ie st (.pubrel c pid)).g c).unack = (st.g c).unack.erase pid := by
+  constructor
+  · by_cases hm : pid ∈ (st.g c).unack
+    · simp [hstep, HOp.cmds, HOp.run, hm, dfold]
+    · simp [hstep, HOp.cmds, HOp.run, hm, dfold, dexec, DCmd.cid, DClient.step]
+  · simp [hstep, HOp.cmds, HOp.run, dfold, dexec, DCmd.cid, DClient.step]
+
+/-- removing a session leaves no session, queue or subscriptions behind -/
+theorem terminate_meaning (ie : Nat) (st : HSt) (c : Bytes) :
+    clientView (hstep ie st (.terminate c)).g c = none ∧ ((hstep ie st (.terminate c)).g c).subs = [] ∧
+    ((hstep ie st (.terminate c)).g c).queue = [] := by
+  refine ⟨?_, ?_, ?_⟩
+  · rw [clientView_eq_cview]
+    apply cview_sess_nil
+    simp [hstep, HOp.cmds, HOp.run, removalCmds, dfold, dexec, DCmd.cid, DClient.step]
+  · simp [hstep, HOp.cmds, HOp.run, removalCmds, dfold, dexec, DCmd.cid, DClient.step]
+  · simp [hstep, HOp.cmds, HOp.run, removalCmds, dfold, dexec, DCmd.cid, DClient.step]
+
+/-! ### non-vacuity: a history with a crash point inside a `Read` pipeline -/
+
+private def demoSub : Subscription := { topicFilter := [116], qos := 1 }
+private def demoMsg (q : Nat) : Elem := { atTime := 0, expiry := zeroTime, body := .publish { qos := q, topic := [116], payload := [112] } }
+private def demoHist : List HOp :=
+  [.connect [99] true { id := [99], expiry := 300 } 1000, .subscribe [99] demoSub, .enqueue [99] (demoMsg 0),
+   .enqueue [99] (demoMsg 1), .deliver [99] [7, 8] 2000, .ack [99] 7]
+
+example : (hcmds 30 {} demoHist).length = 10 := by decide
+example : ((hrun 30 {} demoHist).g [99]).queue = [] := by decide
 
 end GmqttVerif.C09
